@@ -889,7 +889,7 @@ func checkFailureBranchKv(p *Prog, r *Roles, res *Result, f *ssa.Function, casFa
 				st := struct{ Val ssa.Value }{fvv.val}
 				{
 					c, _, ok := extractOf(p.resolveDeep(st.Val))
-					fresh := false
+					fresh, pinned := false, false
 					if ok {
 						after, before := false, false
 						for _, w := range writes {
@@ -904,6 +904,16 @@ func checkFailureBranchKv(p *Prog, r *Roles, res *Result, f *ssa.Function, casFa
 							}
 						}
 						fresh = after && !before
+						if fresh {
+							// the re-read must name no revision (0 = latest): a read pinned to the failed write's own
+							// revision returns the state before the concurrent writer
+							for _, a := range c.Common().Args {
+								if bt, ok := a.Type().Underlying().(*types.Basic); ok && bt.Kind() == types.Uint64 && !isZeroConst(a) {
+									fresh = false
+									pinned = true
+								}
+							}
+						}
 					}
 					if fresh {
 						continue
@@ -921,7 +931,9 @@ func checkFailureBranchKv(p *Prog, r *Roles, res *Result, f *ssa.Function, casFa
 							}
 						}
 					}
-					if !fallback {
+					if pinned {
+						good, why = false, "field "+fname+" comes from a re-read that is pinned to a revision instead of reading the latest state"
+					} else if !fallback {
 						good, why = false, "field "+fname+" is not taken from a read made after the failed write"
 					}
 				}
